@@ -75,6 +75,7 @@ def main():
             od = os.path.join(EV, "out_" + name)
             r = sh(["python3", os.path.join(snap, "tools", "check.py"), pid, "--tier", a.tier], cwd=snap,
                    env={"VERIF_REPO": wt, "VERIF_OUT": od})
+            open(os.path.join(EV, f"log_{name}_{pid}.txt"), "w").write(r.stdout)
             lines = [l for l in r.stdout.splitlines() if l.startswith(("VIOLATION", "  what", "KNOWN-FINDING", "DRIFT", "TOOL-ERROR"))]
             out["checks"][pid] = {"exit": r.returncode, "wall_s": round(time.time() - t0), "lines": lines[:12]}
             if r.returncode not in (0, 1) or (r.returncode == 1 and not lines):
